@@ -568,6 +568,27 @@ func run(c Sx) Result {
 		}
 	}
 	defer e.close()
+	// retained reports whether label is a canonical ancestor of the disk layer whose
+	// history is retained, in the CURRENT canonical chain
+	retained := func(label int64) bool {
+		_, did, _ := e.db.VerifC17Disk()
+		_, tail, _ := e.db.VerifC17FreezerRange()
+		for i := int(tail); i < int(did) && i < len(e.chain); i++ {
+			if e.chain[i] == label {
+				return true
+			}
+		}
+		return false
+	}
+	answered := func(items SL) bool {
+		for _, it := range items {
+			if si, ok := it.(SI); !ok || si.V.Sign() >= 0 {
+				return true
+			}
+		}
+		return false
+	}
+	var readRoot func(label int64) Sx
 	held := map[int]*pathdb.HistoricalStateReader{}
 	heldLabel := map[int]int64{}
 	diffReads := 0
@@ -580,6 +601,20 @@ func run(c Sx) Result {
 		failf  = func(f string, a ...any) { fails = append(fails, fmt.Sprintf(f, a...)) }
 		maxRec uint64
 	)
+	readRoot = func(label int64) Sx {
+		r, err := e.db.HistoricReader(e.rootOf(label))
+		if err != nil {
+			tags["reader-refused"] = true
+			return L(I(1))
+		}
+		if !retained(label) {
+			_, did, _ := e.db.VerifC17Disk()
+			_, tail, _ := e.db.VerifC17FreezerRange()
+			failf("historical reader granted for root %d which is not a retained canonical ancestor (disk id %d, tail %d)", label, did, tail)
+		}
+		tags["reader-ok"] = true
+		return append(SL{I(0)}, e.readAll(r, label, failf, &diffReads)...)
+	}
 	tags[fmt.Sprintf("limit%d", min(limit, 9))] = true
 	tags[fmt.Sprintf("full%v", full)] = true
 	for _, opx := range l[1:] {
@@ -773,27 +808,8 @@ func run(c Sx) Result {
 			obs = append(obs, L(L(bits, U(rawdb.ReadPersistentStateID(e.disk)), e.dumpSx(effm), e.dumpSx(raw)), e.metaSx()))
 		case 5: // historical reads at the listed roots
 			var items SL
-			_, did, _ := e.db.VerifC17Disk()
-			_, tail, _ := e.db.VerifC17FreezerRange()
 			for _, lx := range AsList(op[1]) {
-				label := int64(AsInt(lx))
-				r, err := e.db.HistoricReader(e.rootOf(label))
-				if err != nil {
-					items = append(items, L(I(1)))
-					tags["reader-refused"] = true
-					continue
-				}
-				ok := false
-				for i := int(tail); i < int(did) && i < len(e.chain); i++ {
-					if e.chain[i] == label {
-						ok = true
-					}
-				}
-				if !ok {
-					failf("historical reader granted for root %d which is not a retained canonical ancestor (disk id %d, tail %d)", label, did, tail)
-				}
-				tags["reader-ok"] = true
-				items = append(items, append(SL{I(0)}, e.readAll(r, label, failf, &diffReads)...))
+				items = append(items, readRoot(int64(AsInt(lx))))
 			}
 			obs = append(obs, items)
 		case 6: // keep a reader
@@ -809,7 +825,28 @@ func run(c Sx) Result {
 			slot := AsInt(op[1])
 			if r, ok := held[slot]; ok {
 				tags["held-reader"] = true
-				obs = append(obs, e.readAll(r, heldLabel[slot], failf, &diffReads))
+				items := e.readAll(r, heldLabel[slot], failf, &diffReads)
+				if answered(items) {
+					tags["held-reader-answered"] = true
+					if !retained(heldLabel[slot]) {
+						failf("a kept reader for root %d answered although the root is no longer a retained canonical ancestor of the disk layer", heldLabel[slot])
+					}
+				} else {
+					tags["held-reader-refused"] = true
+				}
+				obs = append(obs, items)
+			} else {
+				obs = append(obs, L(I(1)))
+			}
+		case 8: // one synchronous pass of the index pruner with the real tail, then every key
+			// is read at the oldest retained root
+			head, tail, _ := e.db.VerifC17FreezerRange()
+			if err := e.db.VerifC18PruneIndex(tail + 1); err != nil {
+				failf("index pruner: %v", err)
+			}
+			tags["pruner"] = true
+			if tail < head && int(tail) < len(e.chain) {
+				obs = append(obs, readRoot(e.chain[tail]))
 			} else {
 				obs = append(obs, L(I(1)))
 			}
@@ -1040,6 +1077,138 @@ func (g *gsim) reads() {
 	g.ops = append(g.ops, L(I(5), ls))
 }
 
+// readHeld emits a read through every kept reader.
+func (g *gsim) readHeld() {
+	for _, sl := range g.slots {
+		g.ops = append(g.ops, L(I(7), I(int64(sl))))
+	}
+}
+
+// openReader keeps a reader for a root of the disk chain (mostly a retained one).
+func (g *gsim) openReader() {
+	if g.did == 0 || len(g.slots) >= 6 {
+		return
+	}
+	lo := 0
+	if g.r.Chance(4, 5) && g.tailUB < g.did {
+		lo = g.tailUB
+	}
+	i := lo + g.r.Intn(g.did-lo+1)
+	g.nslot++
+	g.slots = append(g.slots, g.nslot)
+	g.ops = append(g.ops, L(I(6), I(int64(g.nslot)), I(g.chain[i])))
+}
+
+// commitHead emits Commit(head) when there are diff layers.
+func (g *gsim) commitHead() {
+	if len(g.chain)-1 > g.did {
+		g.ops = append(g.ops, L(I(1), I(g.chain[len(g.chain)-1])))
+		g.advance(len(g.chain) - 1)
+	}
+}
+
+// recoverTo emits a Recover to a certainly recoverable ancestor; lowest = prefer deep.
+func (g *gsim) recoverSure(deep bool) bool {
+	var cands []int
+	for i := g.tailUB; i < g.did; i++ {
+		if v, ok := g.idmap[g.chain[i]]; ok && v == i {
+			cands = append(cands, i)
+		}
+	}
+	if len(cands) == 0 {
+		return false
+	}
+	i := cands[g.r.Intn(len(cands))]
+	if deep {
+		i = cands[g.r.Intn(1+len(cands)/2)]
+	}
+	g.ops = append(g.ops, L(I(3), I(g.chain[i])))
+	g.chain = g.chain[:i+1]
+	g.did = i
+	return true
+}
+
+// genReaderCase: long-lived reader handles.  Readers are opened at several points and
+// used at arbitrary later points: after every movement of the disk layer, across
+// rollbacks and forks regrown (with different contents) to exactly the previous length,
+// to shorter and to longer ones, across tail pruning and index-pruner passes.
+func genReaderCase(r *Rng, maxTr int) Sx {
+	g := &gsim{r: r, na: 2 + r.Intn(3), ns: 2 + r.Intn(2), labels: map[string]int64{}, states: map[int64]gstate{}, idmap: map[int64]int{}}
+	g.states[0] = gstate{map[int]int64{}, map[skey]int64{}}
+	g.labels[g.states[0].key()] = 0
+	g.chain = []int64{0}
+	limits := []int{0, 0, 0, 4, 6, 9}
+	g.limit = limits[r.Intn(len(limits))]
+	maxdiffs := []int{1, 2, 128}
+	g.maxdiff = maxdiffs[r.Intn(len(maxdiffs))]
+	cfg := L(I(int64(g.limit)), Bool(r.Chance(1, 2)), I(int64(g.maxdiff)), Bool(false), Bool(r.Chance(3, 4)), I(int64(g.na)), I(int64(g.ns)))
+	budget := 8 + r.Intn(maxTr)
+	grow := func(n int, readEach bool) {
+		for j := 0; j < n && budget > 0; j++ {
+			budget--
+			g.randomTransition()
+			if g.maxdiff > 2 || r.Chance(2, 3) {
+				g.commitHead()
+			}
+			if readEach && r.Chance(3, 4) {
+				g.readHeld()
+			}
+			if g.limit > 0 && r.Chance(1, 4) {
+				g.ops = append(g.ops, L(I(8)))
+			}
+		}
+		g.commitHead()
+	}
+	grow(3+r.Intn(6), false)
+	for round := 0; round < 1+r.Intn(3) && budget > 0; round++ {
+		for j, m := 0, 1+r.Intn(3); j < m; j++ {
+			g.openReader()
+		}
+		if r.Bool() {
+			g.readHeld() // a successful use before the rollback
+		}
+		if r.Chance(1, 3) {
+			grow(1+r.Intn(2), true)
+			g.openReader()
+		}
+		before := g.did
+		if !g.recoverSure(r.Bool()) {
+			grow(2, true)
+			continue
+		}
+		if r.Chance(1, 2) {
+			g.readHeld()
+		}
+		// regrow a different fork: to exactly the old length, shorter or longer
+		deltas := []int{0, 0, 0, -1, 1, 2, -2, 3}
+		target := before + deltas[r.Intn(len(deltas))]
+		if target <= g.did {
+			target = g.did + 1
+		}
+		for g.did < target && budget > 0 {
+			budget--
+			n0 := len(g.chain)
+			g.randomTransition()
+			if len(g.chain) == n0 {
+				continue
+			}
+			g.commitHead()
+			g.readHeld()
+			if g.limit > 0 && r.Chance(1, 3) {
+				g.ops = append(g.ops, L(I(8)))
+			}
+		}
+		g.reads()
+	}
+	g.readHeld()
+	if g.limit > 0 {
+		g.ops = append(g.ops, L(I(8)))
+	}
+	g.reads()
+	g.observe()
+	return append(SL{cfg}, g.ops...)
+}
+
 func genCase(r *Rng, maxTr int) Sx {
 	g := &gsim{r: r, na: 2 + r.Intn(4), ns: 2 + r.Intn(3), labels: map[string]int64{}, states: map[int64]gstate{}, idmap: map[int64]int{}}
 	g.states[0] = gstate{map[int]int64{}, map[skey]int64{}}
@@ -1079,6 +1248,9 @@ func genCase(r *Rng, maxTr int) Sx {
 			g.ops = append(g.ops, L(I(1), I(g.chain[p])))
 			g.chain = g.chain[:p+1]
 			g.advance(p)
+			if r.Chance(1, 2) {
+				g.readHeld()
+			}
 		case x < 73: // cap
 			k := r.Intn(4)
 			g.ops = append(g.ops, L(I(2), I(int64(k))))
@@ -1092,13 +1264,14 @@ func genCase(r *Rng, maxTr int) Sx {
 			g.observe()
 		case x < 87: // historical reads
 			g.reads()
-		case x < 92: // keep a reader / read through a kept one (also across Recover and new forks)
-			if len(g.slots) > 0 && r.Bool() {
-				g.ops = append(g.ops, L(I(7), I(int64(g.slots[r.Intn(len(g.slots))]))))
-			} else if g.did > 0 {
-				g.nslot++
-				g.slots = append(g.slots, g.nslot)
-				g.ops = append(g.ops, L(I(6), I(int64(g.nslot)), I(g.chain[r.Intn(g.did+1)])))
+		case x < 92: // keep a reader / read through the kept ones (also across Recover and new forks)
+			switch {
+			case len(g.slots) > 0 && r.Chance(1, 2):
+				g.readHeld()
+			case g.limit > 0 && r.Chance(1, 4):
+				g.ops = append(g.ops, L(I(8))) // index pruner pass + reads at the oldest retained root
+			default:
+				g.openReader()
 			}
 		default: // Recover
 			if r.Chance(3, 4) {
@@ -1118,6 +1291,9 @@ func genCase(r *Rng, maxTr int) Sx {
 				g.ops = append(g.ops, L(I(3), I(g.chain[i])))
 				g.chain = g.chain[:i+1]
 				g.did = i
+				if r.Chance(1, 2) {
+					g.readHeld()
+				}
 			} else {
 				// any root: pruned, live, the disk root, of an abandoned fork, unknown
 				var label int64
@@ -1134,6 +1310,7 @@ func genCase(r *Rng, maxTr int) Sx {
 			}
 		}
 	}
+	g.readHeld()
 	g.reads()
 	g.observe()
 	return append(SL{cfg}, g.ops...)
@@ -1141,23 +1318,27 @@ func genCase(r *Rng, maxTr int) Sx {
 
 func gen(r *Rng, tier string, emit func(Sx)) {
 	r = NewRng(r.U64())
-	n, maxTr := 900, 60
+	n, maxTr := 750, 60
 	if tier == "thorough" {
-		n, maxTr = 9000, 200
+		n, maxTr = 7500, 200
 	}
 	for i := 0; i < n; i++ {
 		m := maxTr
 		if i%3 != 0 {
 			m = maxTr / 3
 		}
-		emit(genCase(r.Fork(), m))
+		if i%3 == 1 {
+			emit(genReaderCase(r.Fork(), m))
+		} else {
+			emit(genCase(r.Fork(), m))
+		}
 	}
 }
 
 func main() {
 	Main(Family{
 		ID:   "C17",
-		Rule: "the c17 generator (random linear histories of account creation / modification / deletion with storage / destruct-and-recreate / re-creation / undo transitions as real trie node sets over 2-5 accounts x 2-4 slots, up to 60 (quick) / 200 (thorough) operations; StateHistory limit 0..8 forcing tail pruning, WriteBufferSize 0 or 64 MiB, maxDiffLayers 1..128; Commit, cap, Recover followed by a different fork) with state history indexing enabled, plus historical read batches: HistoricReader at sampled canonical roots incl. the ones around the freezer tail and the disk layer, roots of abandoned forks and unknown roots, then AccountRLP / Storage of every key of the universe; readers kept across further commits, tail pruning, Recover and different forks (they must refuse or still answer for their own root); Recover down to state id 0 included. Non-trivial: some historical read succeeded with a value different from the disk layer's current value; distinct = distinct case line.",
+		Rule: "the c17 generator (random linear histories of account creation / modification / deletion with storage / destruct-and-recreate / re-creation / undo transitions as real trie node sets over 2-5 accounts x 2-4 slots, up to 60 (quick) / 200 (thorough) operations; StateHistory limit 0..8 forcing tail pruning, WriteBufferSize 0 or 64 MiB, maxDiffLayers 1..128; Commit, cap, Recover followed by a different fork) with state history indexing enabled, plus historical read batches: HistoricReader at sampled canonical roots incl. the ones around the freezer tail and the disk layer, roots of abandoned forks and unknown roots, then AccountRLP / Storage of every key of the universe; long-lived reader handles: opened at several points and used at arbitrary later points - after every movement of the disk layer, across rollbacks and forks regrown with different contents to exactly the previous length, shorter and longer, across tail pruning - they must refuse or still answer for their own root, and answer only while that root is a retained canonical ancestor; a third of the cases is a dedicated reader-lifecycle scenario; synchronous index-pruner passes with the real tail followed by reads of every key at the oldest retained root; Recover down to state id 0 included. Non-trivial: some historical read succeeded with a value different from the disk layer's current value; distinct = distinct case line.",
 		Gen:  gen,
 		Run:  run,
 	})
